@@ -117,3 +117,4 @@ THEOREMS_C19B = ["C19b." + t for t in """pairG_dropped oneCentreG_decoupled fock
 stationary_of_fragments fragments_of_stationary aufbau_rayleigh aufbau_unique_of_gap aufbauP_fromBlocks aufbauData_fromBlocks aufbau_of_fragments aufbau_of_fragments_fermi alignment_of_aufbau
 aufbau_iff_aligned aufbau_needs_level_alignment forces_decouple""".split()]
 THEOREMS_C06B += ["C06b." + t for t in "bintgs_series_branch bintgs_at_zero_is_integral bintgs_near_zero bintgs_series_relation_defect bintgs_series_relation_iff bintgs_series_hasDerivAt bintgs_odd_slope_at_zero bintgsOld_eq_outside_window old_branch_dropped_slope".split()]
+THEOREMS_RESUMETIE = ["ResumeTie." + t for t in "iData_is_model_cursor iVec_eq_iData iTdm_eq_iData iNa_is_model_cursor xlSlot_is_restoreIndex".split()]
